@@ -26,7 +26,9 @@ def reach(prog):
     deps = {}
     for c in prog.clauses:
         for h in c.heads:
-            deps.setdefault(h.rel, set()).update(rn for rn, ctx in dl.clause_atoms(c))
+            # per head: souffle splits a clause with several heads, and an aggregate inside one head's arguments is a
+            # dependency of that head only
+            deps.setdefault(h.rel, set()).update(rn for rn, ctx in dl.clause_atoms(dl.Clause([h], c.body) if len(c.heads) > 1 else c))
     changed = True
     while changed:
         changed = False
